@@ -4,6 +4,7 @@ cd "$(dirname "$0")/.."
 for w in .claude/worktrees/*; do
   b=$(git -C $w rev-parse HEAD)
   if git merge-base --is-ancestor $b HEAD; then continue; fi
+  git add -A >/dev/null 2>&1; git commit -qm "wip before merge" >/dev/null 2>&1
   if ! git merge -q --no-edit $b >/dev/null 2>&1; then
     for f in $(git diff --name-only --diff-filter=U); do
       case "$f" in
